@@ -96,7 +96,7 @@ StepClauses(e, r) ==
      [] e.k = "Fiber" -> Fails("LossBudget", FiberLossBudget(e, Tol)) \cup Fails("NoMemory", FiberNoMemory(e, Tol))
                          \cup (IF e.acc = 1 THEN AccClauses(e) \cup Fails("ContribFromConfig", FiberContribFromConfig(e, TolAcc, TolPmdCfg))
                               ELSE {})
-     [] e.k = "Acc"   -> AccClauses(e)
+     [] e.k = "Acc"   -> AccClauses(e) \cup Fails("RoadmContribFromConfig", RoadmContribFromConfig(e, TolPmdCfg))
      [] e.k = "End"   -> EndClauses(e, r)
      [] e.k \in {"LowPower", "LumpedOnce", "PumpsOnlyAddGain", "MethodsAgree"} -> RamanClauses(e)
      [] OTHER -> {"UnknownEvent"}
